@@ -454,6 +454,64 @@ def data_of(op, p):
     return {"k": "unknown"}
 
 
+_EMPTY_MARK = "\x01verif-empty\x01"
+
+
+def _substitute_empty(req):
+    """deep copy of the request with every empty text of an Application Specific Information value replaced by a
+    placeholder; -> (copy, whether anything was replaced)"""
+    used = [False]
+
+    def walk(x):
+        if isinstance(x, dict):
+            y = {k: walk(v) for k, v in x.items()}
+            if y.get("k") == "appinfo":
+                for f in ("ns", "d"):
+                    if y.get(f) == "":
+                        y[f] = _EMPTY_MARK
+                        used[0] = True
+            return y
+        if isinstance(x, list):
+            return [walk(v) for v in x]
+        return x
+    return walk(req), used[0]
+
+
+def _empty_placeholders(b):
+    """every Text String whose value is the placeholder becomes an empty Text String; enclosing lengths follow"""
+    mark = _EMPTY_MARK.encode()
+    b = bytearray(b)
+    while True:
+        # index of every item: (offset, type, length, end, enclosing structure offsets)
+        hit = None
+        stack = [(0, len(b), [])]
+        while stack and hit is None:
+            lo, hi, parents = stack.pop()
+            i = lo
+            while i + 8 <= hi:
+                typ, ln = b[i + 3], int.from_bytes(b[i + 4:i + 8], "big")
+                end = i + 8 + ln + (8 - ln % 8) % 8
+                if typ == 1:
+                    stack.append((i + 8, i + 8 + ln, parents + [i]))
+                elif typ == 7 and bytes(b[i + 8:i + 8 + ln]) == mark:
+                    hit = (i, end, parents)
+                    break
+                i = end
+        if hit is None:
+            return bytes(b)
+        i, end, parents = hit
+        gone = end - (i + 8)
+        b[i + 4:i + 8] = (0).to_bytes(4, "big")
+        del b[i + 8:end]
+        for p_ in parents:
+            ln = int.from_bytes(b[p_ + 4:p_ + 8], "big")
+            b[p_ + 4:p_ + 8] = (ln - gone).to_bytes(4, "big")
+
+
+class BuildRefused(Exception):
+    """build_request could not construct the request objects (a constructor or setter of /repo raised)"""
+
+
 class FakeCrypto(object):
     """Scripted stand-in for CryptographyEngine: answers what the current item's script says."""
 
@@ -682,7 +740,26 @@ class ImplEngine(object):
         self._recorded = [None] * len(req["items"])
         self._item = -1
         self.internal_errors = []
-        msg = build_request(req)
+        try:
+            # (KMIP 2.0 requests keep the object door: their wire form cannot carry everything the abstract request
+            # holds - attribute indices, template names - so a decoded copy would not be the request the model is given)
+            req_b, smuggled = _substitute_empty(req) if req["version"] < 20 else (req, False)
+            msg = build_request(req_b)
+            if smuggled:
+                # empty text strings reach the server through the DECODER (read() assigns fields directly), not
+                # through constructors: encode with placeholders, empty them in the bytes, decode as the session does
+                v = req["version"]
+                kv = contents.protocol_version_to_kmip_version(version_obj(v)) or enums.KMIPVersion.KMIP_1_2
+                st = utils.BytearrayStream()
+                msg.write(st, kmip_version=kv)
+                raw = _empty_placeholders(bytes(st.buffer))
+                msg = messages.RequestMessage()
+                dv = contents.protocol_version_to_kmip_version(self.engine.default_protocol_version)
+                msg.read(utils.BytearrayStream(raw), kmip_version=dv)
+        except Exception as e:
+            # the library's constructors / setters refuse a value the generator holds legal: this request cannot be
+            # presented through this (object-level) door; it is dropped, never guessed at
+            raise BuildRefused("%s: %s" % (type(e).__name__, str(e)[:200]))
         groups = ident["groups"]
         cred = (ident["user"], None if groups is None else list(groups))
         try:
